@@ -33,7 +33,8 @@ ASSUMPTIONS = ["conditioning guard R<=8", "bound constant calibrated on the "
 def required_cells(tier):
     return {"system:td": 5, "system:const": 5, "coupling:diag": 3,
             "coupling:rotated": 3, "coupling:degenerate": 2, "unique": 3,
-            "subdiv:None": 3, "prefix": 5, "ladder": 2, "trace": 3,
+            "subdiv:None": 3, "prefix": 5, "final-state-only": 10,
+            "final-state-only&td": 4, "ladder": 2, "trace": 3,
             "start!=0": 3, "tau:set": 2, "K:set": 5,
             "pt-inspected-before-use": 5,
             "initial-matrix:non-hermitian": 3,
@@ -155,13 +156,13 @@ def _layout(rho, kind):
     return rho
 
 
-def _dyn(g, sysd, pt, num_steps=None):
+def _dyn(g, sysd, pt, num_steps=None, record_all=True):
     import oqupy
     return oqupy.compute_dynamics(
         sysd["oq"], _layout(g["rho0"], g.get("layout")),
         start_time=g["start"], process_tensor=pt,
         num_steps=num_steps, subdiv_limit=g["subdiv"],
-        progress_type="silent")
+        record_all=record_all, progress_type="silent")
 
 
 def _pt_dyn_routed(g, sysd, params, route):
@@ -309,6 +310,35 @@ def run_case(case):
                     "what": f"num_steps={n} run differs from the full run's "
                             f"first steps by {e2:.3e}",
                     "mechanism": "prefix-self", "detail": {}})
+
+    # only the final state requested (record_all=False): the state TEMPO
+    # reaches at that time, for the whole run and for a shorter one
+    if i % 2 == 1 and not violations:
+        cells.append("final-state-only")
+        if g["sys_b"]["td"]:
+            cells.append("final-state-only&td")
+        for n in (None, max(2, nsteps // 2)):
+            df = _dyn(g, g["sys_b"], pt, num_steps=n, record_all=False)
+            sf = np.array(df.states)
+            k = nsteps if n is None else n
+            monitors["final_only_compared"] = \
+                monitors.get("final_only_compared", 0) + 1
+            if sf.shape[0] != 1 or abs(df.times[0] - (start + k * dt)) > 1e-9:
+                violations.append({
+                    "what": f"record_all=False: {sf.shape[0]} state(s) at "
+                            f"times {list(df.times)[:3]}, expected the one "
+                            f"at {start + k * dt}", "mechanism": "length",
+                    "detail": {}})
+                continue
+            e = float(np.abs(sf[0] - st[k]).max())
+            worst = max(worst, e / bound)
+            if e > bound:
+                violations.append({
+                    "what": f"record_all=False (num_steps={n}): the final "
+                            f"state differs from TEMPO's state at step {k} "
+                            f"by {e:.3e} > {bound:.3e}",
+                    "mechanism": "tempo-vs-pt",
+                    "detail": {"num_steps": n, "td": g["sys_b"]["td"]}})
 
     # the same process tensor computed straight into a file / re-opened /
     # exported and imported again (the coupling operator is non-diagonal in
